@@ -13,14 +13,31 @@ enum LockKind { OPT = 0, SPIN = 1, RW = 2 };
 enum Tx { T_READ = 0, T_READ_ENDREAD = 1, T_UPGRADE_COMMIT = 2, T_UPGRADE_ABORT = 3, T_WRITE = 4, T_TRYWRITE = 5,
     T_TRYWRITE_ABORT = 6, T_NKINDS = 7 };
 
+// a lock whose version counter has been driven past INT_MAX by 2^30 real write phases (done once per process, with the
+// hook disabled): versions are negative from then on, which is where a sign-sensitive "is odd" test breaks
+static OptimisticReadWriteLock& agedLock() {
+    static OptimisticReadWriteLock l;
+    static bool done = false;
+    if (!done) {
+        done = true;
+        for (long i = 0; i < (1L << 30) + 3; i++) {
+            l.start_write();
+            l.end_write();
+        }
+    }
+    if (l.is_write_locked()) l.abort_write();   // a previous (failing) case may have left it taken
+    return l;
+}
+
 struct Case {
     int kind = OPT;
+    int aged = 0;
     std::vector<std::vector<int>> tx;   // per client
     std::vector<std::uint8_t> sched;
     std::uint64_t tail = 0;
     std::string text() const {
         std::ostringstream os;
-        os << "c30 lock=" << kind << " clients=" << tx.size() << "\n";
+        os << "c30 lock=" << kind << " clients=" << tx.size() << " aged=" << aged << "\n";
         for (auto& t : tx) {
             os << "t:";
             for (int x : t) os << " " << x;
@@ -43,6 +60,7 @@ struct Case {
                 std::string kv;
                 while (ls >> kv)
                     if (kv.rfind("lock=", 0) == 0) c.kind = std::atoi(kv.c_str() + 5);
+                    else if (kv.rfind("aged=", 0) == 0) c.aged = std::atoi(kv.c_str() + 5);
             } else if (w == "t:") {
                 std::vector<int> t;
                 int x;
@@ -88,7 +106,8 @@ static Result runCase(const Case& c, vsched::ChoiceSource* src) {
     vsched::Scheduler sch(n, src, 20000);
     auto Y = [] { vsched::Scheduler::yieldPoint(); };
 
-    OptimisticReadWriteLock ol;
+    OptimisticReadWriteLock freshLock;
+    OptimisticReadWriteLock& ol = (c.aged && c.kind == OPT) ? agedLock() : freshLock;
     SpinLock sl;
     ReadWriteLock rwl;
     int readers = 0;  // RW lock model
@@ -344,6 +363,7 @@ static void account(hc::Stats& st, const Case& c, const Result& r) {
         return;
     }
     st.cls(std::string("lock=") + (c.kind == OPT ? "optimistic" : c.kind == SPIN ? "spin" : "readwrite"));
+    if (c.aged && c.kind == OPT) st.cls("aged_lock_negative_versions");
     if (r.overlap) st.cls("read_phase_overlapped_by_write");
     if (r.contention) st.cls("contended_acquisition");
     if (r.abortOverlap) st.cls("read_overlapped_only_by_aborted_write");
@@ -417,7 +437,8 @@ int main(int argc, char** argv) {
     std::string lastMsg;
     bool ok = rc::check("optimistic lock protocol invariants", [&] {
         Case c;
-        c.kind = *rc::gen::weightedElement<int>({{6, OPT}, {1, SPIN}, {2, RW}});
+        c.aged = (int)args.num("aged", 0);
+        c.kind = c.aged ? OPT : *rc::gen::weightedElement<int>({{6, OPT}, {1, SPIN}, {2, RW}});
         const int n = *hc::R(2, 4);
         for (int i = 0; i < n; i++) {
             auto t = *rc::gen::resize(30, rc::gen::container<std::vector<int>>(hc::R(0, (int)T_NKINDS)));
